@@ -2,6 +2,7 @@ package c09
 
 import (
 	"fmt"
+	"math"
 	"os"
 	"sort"
 	"strings"
@@ -376,8 +377,34 @@ func rootCause(e *Ex, ks []string, sym string) string {
 	return ""
 }
 
+// bigUnsignedOperand: a comparison or arithmetic between a signed and an unsigned operand in which the unsigned value
+// does not fit an int64 (checked on the operand values at that row).
+func (r *exprRun) bigUnsignedOperand(e *Ex, row int, ks []string) bool {
+	if len(e.Args) != 2 || len(ks) != 2 {
+		return false
+	}
+	fam := func(k string) string { return strings.TrimSuffix(k, "-narrow") }
+	if !(fam(ks[0]) == "int" && fam(ks[1]) == "uint" || fam(ks[0]) == "uint" && fam(ks[1]) == "int") {
+		return false
+	}
+	for _, a := range e.Args {
+		p := r.eval(a)
+		if p.samErr != nil || len(p.sam) != len(r.c.Input.Vals) {
+			return false
+		}
+		if v := p.sam[row]; zed.IsUnsigned(v.Type().ID()) && !v.IsNull() && v.Uint() > math.MaxInt64 {
+			return true
+		}
+	}
+	return false
+}
+
 func (r *exprRun) signature(e *Ex, row int, sym string) string {
 	ks := r.argKindsRaw(e, row)
+	if oc := e.opClass(); (strings.HasPrefix(oc, "compare:") || strings.HasPrefix(oc, "arith:")) && !strings.HasPrefix(sym, "panic(") && r.bigUnsignedOperand(e, row, ks) {
+		// coerceVals/promoteToSigned convert the unsigned operand to int64 without an overflow check ("XXX overflow errors")
+		return "C09/expr/" + oc[:strings.Index(oc, ":")] + "/unsigned-above-maxint64-coerced-to-signed"
+	}
 	if rc := rootCause(e, ks, sym); rc != "" {
 		return "C09/expr/" + rc
 	}
